@@ -4,8 +4,10 @@ pub mod c01;
 pub mod c02;
 pub mod c08;
 pub mod c09;
+pub mod c10;
 pub mod c12;
 pub mod c13;
+pub mod c14;
 
 use vcommon::{Check, Chooser, EvidenceExtras, RunOutcome, Tier};
 
@@ -59,8 +61,11 @@ pub fn all() -> Vec<Box<dyn Check>> {
     v.push(Box::new(c02::C02 { family: "c02_closed_loop_faults_then_quiet", faults: true, quick_runs: 1000, thorough_runs: 50_000 }));
     v.push(Box::new(c08::C08Driver));
     v.push(Box::new(c09::C09));
+    v.push(Box::new(c10::C10));
     v.push(Box::new(c12::C12));
     v.push(Box::new(c13::C13Direct));
+    v.push(Box::new(c14::C14));
+    v.push(Box::new(Reuse { property: "C14", family: "c14_monitor_on_random_history", inner: Box::new(c08::C08Driver), quick_runs: 3000, thorough_runs: 60_000 }));
     v.push(Box::new(Reuse { property: "C13", family: "c13_monitor_on_closed_loop_faults", inner: Box::new(c02_faults()), quick_runs: 800, thorough_runs: 30_000 }));
     v.push(Box::new(Reuse { property: "C13", family: "c13_monitor_on_random_history", inner: Box::new(c08::C08Driver), quick_runs: 3000, thorough_runs: 60_000 }));
     v.push(Box::new(Reuse { property: "C13", family: "c13_monitor_on_noisy_networks", inner: Box::new(c01_noisy()), quick_runs: 600, thorough_runs: 20_000 }));
@@ -123,6 +128,12 @@ pub fn extras(property: &str) -> EvidenceExtras {
         }
         "C09" => {
             e.rule = "each run = a slave port with a recording filter and a scripted parent; up to three Sync(/Follow_Up) exchanges and up to three Delay_Req/Delay_Resp exchanges (one-step or two-step, decoys from a non-parent and for another requester) whose constituent events are interleaved, duplicated and dropped by the tape; every measurement is compared with the formula on one exchange in exact 2^-32 ns integers; non-trivial = at least one measurement produced; distinct = distinct (event-kind sequence, measurement count) fingerprint".into();
+        }
+        "C10" => {
+            e.rule = "each run = one master port (E2E or P2P, any domain/sdoId/minor version, clock started anywhere in the PTP range with sub-ns phase and drift, TX timestamps prompt or late) driven by its timers for 20-200 intervals (one run in 40: 70 000 intervals to cross the sequence wrap) while scripted requesters inject Delay_Req / Pdelay_Req with arbitrary header fields; every emitted frame is decoded by the reference codec and by statime's own parser; non-trivial = more than 10 frames emitted; distinct = (mode, frame-type set, transition sequence) fingerprint".into();
+        }
+        "C14" => {
+            e.rule = "each run = a P2P port (started Listening, Master or Slave) with a recording filter, one to three consecutive Pdelay requests answered by one or two scripted responders (one-step / two-step) whose events (TX timestamp, Pdelay_Resp, Pdelay_Resp_Follow_Up, duplicates, omissions, responses for another requester, announce receipt timer, BMCA) are interleaved by the tape; exact integer formula check per measurement, Faulty entry/exit rules; plus the Faulty-role monitors on random histories; non-trivial = a measurement was produced or a second responder appeared; distinct = event-kind sequence fingerprint".into();
         }
         "C12" => {
             e.rule = "each run = a generated history with a faithful host (timers armed and fired exactly as requested; lost/late TX timestamps, masters appearing/disappearing, second peer-delay responders) followed by (a) total silence or (b) a steadily announcing better master; non-trivial = phase 2 evaluated; distinct = (variant, start states, transition sequence) fingerprint".into();
